@@ -278,17 +278,16 @@ Definition only_pending (evs : list bev) : Prop :=
 Definition is_item {msg} (r : pres msg) : bool := match r with Item _ => true | _ => false end.
 
 (* ---- executable instance and observables (correspondence harness h_decode) ------------------------ *)
-(* allocation meter against the ghost logs.  [A] largest single allocation observed, [R] largest
-   Reserve (self.buf.reserve(len)), [Zc] largest capacity reserved by decompress(), [Zo] largest
-   decompressed output, [zpart] (passed by the harness, computed with the real libraries) the largest
-   partial output of a decompression that then failed.
-   (1) nothing is allocated without a Reserve, received data, a decompress() capacity or
-       decompressed bytes to justify it;  (2) a large Reserve / a large decompress() capacity is
-       really allocated. *)
-Definition alloc_tie (R Zc Zo zpart A data bs : N) : tr :=
-  obool ((A <=? 2 * R + 4 * data + 2 * bs + 1048576 + 4 * Zo + 4 * zpart) &&
-         ((R <? 65536 + data + 2 * bs) || (R <=? A)) &&
-         ((Zc <? 65536) || (Zc <=? A))).
+(* allocation meter against the ghost logs - ONE-SIDED and property-shaped: how much spare capacity
+   the code reserves (buffer growth strategy, the decompress() estimate, pre-reservation of a declared
+   length) is deliberately NOT tied; only an upper bound that the property implies is.
+   [A] largest single allocation observed, [R] largest declared length the model ACCEPTED (a refused
+   length is never logged, so nothing of its size may be allocated), [Zo] largest decompressed output,
+   [zpart] (passed by the harness, computed with the real libraries) the largest partial output of a
+   decompression that then failed: nothing is allocated beyond a generous function of accepted
+   lengths, received data, the buffer size and decompressed bytes. *)
+Definition alloc_tie (R Zo zpart A data bs : N) : tr :=
+  obool (A <=? 4 * R + 4 * data + 4 * N.max bs 1 + 1048576 + 4 * Zo + 4 * zpart).
 
 Definition has_panic {msg} (t : list (pres msg)) : bool :=
   existsb (fun r => match r with Panic => true | _ => false end) t.
@@ -316,7 +315,7 @@ Definition obs_case_x (ptab : option (list (list N * option (list N)))) (dir : d
            (evs : list bev) (fuel extra A data bs zpart : N) : tr :=
   let deser := match ptab with Some t => ptab_lookup t | None => deser_raw end in
   let '(o, r) := obs_decode_gen_x deser dir encoding max ztab bs evs fuel extra in
-  Nd [o; match r with Some (R, Zc, Zo) => alloc_tie R Zc Zo zpart A data bs | None => obool true end].
+  Nd [o; match r with Some (R, _, Zo) => alloc_tie R Zo zpart A data bs | None => obool true end].
 
 (* kinds api.*: a caller of Streaming::message() / Streaming::trailers() *)
 Definition mres_obs (r : mres (list N)) : tr :=
